@@ -192,6 +192,29 @@ CHECKS = {
               'About 130 (quick) call scripts - legal sessions with each NULL-handle / NULL-buffer call at each position, rejected configurations before the valid one, decoder sessions - run against the real library, one process per script under a watchdog; result classes must equal the specification and no call may crash or block.'),
         note=('Trusted: Coq kernel; translators/tr_locks.py (the path semantics of the skeleton language is proved, the extraction of the skeleton from the AST is not; function discovery is textual); the protocol specification is hand-written from the API header and tied by the script runs. '
               'Blocking other than on mutexes (semaphore waits, full pools) is outside the theorem and covered by the scripts / C27 only. Known finding D29 (temporal filtering returns with temp_filt_mutex held on allocation failure). Fixed in /repo: set_parameter mutex leak, NULL dereferences, decoder deinit.')),
+    'C15': dict(
+        category='other', design_ref='DESIGN.md §6 C15',
+        technique='Resource ledger (link-time --wrap of the allocation and OS-object creation functions) around real sessions torn down at every protocol point + Coq theorems on the constructor / destructor discipline + regenerated table: every allocated structure field has a release site',
+        text=('c15_build_then_destroy_restores (CtorCalc.v): destroying what a safe constructor built returns every resource exactly once. c15_every_allocated_field_has_a_release_site: in the table regenerated from the allocation / release macros of the encoder and common sources '
+              '(361 fields) no field is allocated somewhere and released nowhere (four reviewed alias exceptions). Encoder sessions (variants: recon, 10 bit, 4 processors, screen content, preset 4) and decoder sessions (1 / 4 threads, 8 / 16-bit pipeline) are torn down with deinit + deinit_handle '
+              'after handle creation, after a rejected and an accepted configuration, after init, mid-stream (5..60 pictures sent, 0..6 packets retrieved) and after draining, twice or three times in a row: every call must return, no thread, heap block, mutex or semaphore of the library may remain, and the live heap must not grow per session.'),
+        note=('Partial: the claim about the library is observed on the sessions run; memory obtained outside malloc/calloc/realloc/posix_memalign is not seen. Known findings D13 (mid-stream teardown can hang), D32 (mutexes / semaphores never destroyed), D33 (un-retrieved packet buffers leak), '
+              'D34 (multi-threaded decoder leaks 14 mutexes per session). Fixed in /repo: decoder teardown crashes before the first frame.')),
+    'C16': dict(
+        category='other', design_ref='DESIGN.md §6 C16',
+        technique='Coq theorem: the EB_NEW / destructor discipline unwinds a single failure at any position (CtorCalc.v) + single-failure injection at every distinct creation site of the real build (allocation, thread, mutex, semaphore)',
+        text=('c16_eb_new_unwinds_any_single_failure: an object whose fields are built by safe constructors and are all covered by its destructor is safe - for every position of the one failing creation, everything built so far is released exactly once and the failure is reported. '
+              'On the real library the k-th creation is made to fail during svt_av1_enc_init_handle / set_parameter / init and during the decoder\'s first frames, with k chosen so that every distinct creation site of the build (414 encoder sites, by return address) fails at least once '
+              '(first and last occurrence and a stride in the thorough tier): the failing call must return an error, teardown must return, nothing may remain.'),
+        note=('Partial: the discipline is proved of the model; which constructors of the library follow it is decided by the injection runs, site by site. Known findings: D12 (six encoder constructors crash when unwinding), D36 (lp_group survives a failed init_handle), D37 (some failed creations are swallowed), '
+              'D41 (hang), D38 (the decoder has no unwinding at all - every decoder-side failure signature is listed as known, so the check is blind to new decoder-side regressions). Fixed in /repo: crash of the handle destructor for any failure inside svt_av1_enc_init_handle.')),
+    'C17': dict(
+        category='other', design_ref='DESIGN.md §6 C17',
+        technique='Concurrent instances in one process compared with solo runs + static list of writable file-scope objects that may not grow + Coq statement on the process-global dispatch tables (regenerated)',
+        text=('c17_dispatch_tables_are_process_global / c17_last_initialisation_wins_witness: in the model regenerated from the rtcd sources the kernel tables after two initialisations are those of the second, and they differ between C-only and AVX2 (harmless only because the variants are bit-exact, C07). '
+              'Pairs and triples of encoder instances differing in preset (reference-count classes), bit depth, asm level, thread count, film grain and size, encoder + decoder, decoder + decoder, 128- vs 64-superblock encoders run simultaneously and with staggered starts, once with creation / initialisation / teardown serialised by the application and once fully concurrent; '
+              'every instance must give the packets, recon and decoded pictures of its solo run. The writable .data/.bss objects of both libraries must stay within the reviewed list (238 besides the 781 dispatched pointers).'),
+        note=('Partial: interference is exhibited by the runs only; TSan is not used. Known findings D10 (128- and 64-superblock encoders share block geometry: crash), D39 (two decoders share the allocation registry: crash), D40 (concurrent creation / teardown of encoders races on process-wide state).')),
 }
 
 NOT_BUILT_REASON = 'check not built yet in this development (work in progress); no claim is made'
